@@ -35,7 +35,8 @@ def budget(tier):
 def profile():
     return rtwork.rt_profile(n_ns=(2, 4), p_doc=0.6, p_doc_ref=0.8, p_foreign=0.6, p_alias=0.3, n_routes=(1, 5),
                              p_ns_doc=0.5, p_cfg_union_attr=0.0, p_annotations=0.3, p_custom_ann=0.2,
-                             p_three_part_field_ref=0.5, p_alias_field_ref=0.5)
+                             p_three_part_field_ref=0.5, p_alias_field_ref=0.5,
+                             p_route_container_result=0.25, p_shared_route_name=0.2)
 
 
 def random_whitelist(m, rnd):
